@@ -1362,6 +1362,7 @@ _ESS = "core/execution_statistics.py"
 _TQ = "algos/_progress_bars/custom_tqdm_progress_bar.py"
 _MFC = "caches/memory_full_cache.py"
 WITNESSES = [
+    {"name": "seeded-C20-12", "file": "core/grammars/json_grammar.py", "old": "        )\n        # The required names are handled by _required_names.\n        self.__schema_builder.required.clear()\n        self._defaults.update(cast(\"StrKeyMapping\", state.pop(\"defaults\")))\n", "new": "        )\n        self._defaults.update(cast(\"StrKeyMapping\", state.pop(\"defaults\")))\n", "expect": "20.10", "note": "JSONGrammar.__setstate__ no longer empties the required names that the pickled s"},
     {"name": "seeded-C20-9", "file": "algos/doe/base_doe_library.py", "old": "        self.unit_samples = array([])\n        self._seeder = Seeder()\n        self.__compute_jacobians = False\n        self.__output_functions = []\n        self.__jacobian_functions = []\n        self.lock = RLock()\n\n    def _init_shared_memory_attrs_after(self) -> None:\n        self.lock = RLock()\n", "new": "        self.unit_samples = array([])\n        self.__compute_jacobians = False\n        self.__output_functions = []\n        self.__jacobian_functions = []\n        self._init_shared_memory_attrs_after()\n\n    def _init_shared_memory_attrs_after(self) -> None:\n        self._seeder = Seeder()\n        self.lock = RLock()\n", "expect": "20.9", "note": "BaseDOELibrary re-creates its seeder together with the lock in _init_shared_memo"},
     {"name": "sobieski-problem-rebuilt-with-default-dtype", "file": _SOB, "old": "        self.sobieski_problem = SobieskiProblem(self.dtype)", "new": "        self.sobieski_problem = SobieskiProblem()", "expect": "20.1"},
     {"name": "statistics-exclusion-mangled", "file": _ESS, "old": "        \"__duration\",\n        \"__n_executions\",\n        \"__n_linearizations\",", "new": "        \"_ExecutionStatistics__duration\",\n        \"_ExecutionStatistics__n_executions\",\n        \"_ExecutionStatistics__n_linearizations\",", "expect": "20.2"},
